@@ -113,9 +113,14 @@ Definition phy_encrypt_frm (key : list N) (p : phy) : outcome phy :=
   | _ => Err
   end.
 
+(* after the repair (C07-7): an empty FRMPayload (FPort 0 without mac-commands) is left as it is *)
 Definition phy_decode_frm (reg : registry) (p : phy) : outcome phy :=
   match pl p with
-  | PLMac m => do f <- decode_payloads reg (is_uplink (mtype p)) (frm m); Ok (with_frm p m f)
+  | PLMac m =>
+    match frm m with
+    | [] => Ok p
+    | _ => do f <- decode_payloads reg (is_uplink (mtype p)) (frm m); Ok (with_frm p m f)
+    end
   | _ => Err
   end.
 
